@@ -546,7 +546,7 @@ def check_consumers(facts, res):
         if loader is not None:
             for bi, t in loader.calls():
                 if t.callee is not None and t.callee.trait == ADAPTER_TRAIT and t.callee.name == "read_object":
-                    k = arg_term(loader, t, 1, 20)
+                    k = arg_term(loader, t, 1, 44)
                     cs = [x[2] for x in walk(k) if x[0] == "const" and x[1] == "str"]
                     pk = any(x[0] == "param" and x[1] == 2 for x in walk(k))
                     appended = cs[0] if cs and pk else None
